@@ -73,12 +73,17 @@ def ensure_facts(repo=None, verbose=True):
             # bound the cache: keep at most 8 older fact sets (LRU by mtime)
             base = os.path.join(CACHE, 'facts')
             if os.path.isdir(base):
-                olds = sorted((os.path.join(base, d) for d in os.listdir(base)), key=os.path.getmtime)
+                def _mt(d):
+                    try:
+                        return os.path.getmtime(d)
+                    except OSError:          # evicted by a concurrent run
+                        return 0.0
+                olds = sorted((os.path.join(base, d) for d in os.listdir(base)), key=_mt)
                 main_tag = hashlib.sha256(os.path.abspath('/repo').encode()).hexdigest()[:6]
                 keep_main = [d for d in olds if os.path.basename(d).startswith(main_tag)][-3:]   # never evict /repo's latest sets
                 for d in olds[:-8]:
                     # never evict the latest sets of /repo, nor a set another process may still be reading (touched in the last 15 minutes)
-                    if d not in keep_main and time.time() - os.path.getmtime(d) > 900:
+                    if d not in keep_main and time.time() - _mt(d) > 900:
                         shutil.rmtree(d, ignore_errors=True)
             os.makedirs(fdir, exist_ok=True)
             tgt = os.environ.get('PVX_TARGET', os.path.join(CACHE, 'target'))
